@@ -260,6 +260,14 @@ func (c *XAConn) createNewTxOnExecIfNeed(ctx context.Context, f func() (types.Ex
 	}
 
 	if tx != nil && currentAutoCommit {
+		// the rows of a query are read before the branch opened for it is ended: the driver refuses XA END (every
+		// command) while a result is unread, and the application reads them afterwards
+		if ret, err = types.BufferResult(ret); err != nil {
+			if rollbackErr := c.Rollback(ctx); rollbackErr != nil {
+				log.Errorf("xa connection proxy rollback failure xid:%s, err:%v", c.txCtx.XID, rollbackErr)
+			}
+			return nil, err
+		}
 		if err = c.Commit(ctx); err != nil {
 			log.Errorf("xa connection proxy commit failure xid:%s, err:%v", c.txCtx.XID, err)
 			// XA End & Rollback
